@@ -108,7 +108,7 @@ func buildWith(repo string, wantRace bool, rewrite bool) (*Build, error) {
 		return b, err
 	}
 	for _, e := range ents {
-		if strings.HasSuffix(e.Name(), ".go") {
+		if strings.HasSuffix(e.Name(), ".go") || strings.HasSuffix(e.Name(), ".s") {
 			data, err := os.ReadFile(filepath.Join(src, e.Name()))
 			if err != nil {
 				return b, err
